@@ -17,7 +17,7 @@ ASSUMPTIONS = [
     "name-tree keys are compared through getUTF8Value(); the PDFDoc/UTF-16 decoding itself is qpdf's (C14 covers it)",
     "iterator insertAfter is only specified when the key belongs at that position (header: DANGER ...); other uses are compared model-vs-implementation only",
     "number keys are exercised within 63 bits (the OCaml runner's int); long long extremes are not",
-    "attachments: checked through the qpdf CLI against a dictionary specification written in this harness (no Coq model); file specifications are those the CLI creates (/F and /UF equal)",
+    "attachments: checked through the qpdf CLI against the extracted Coq specification att_job (Struct/AttachSpec.v, sorted map key -> record id); record fields are compared by this harness; file specifications are those the CLI creates (/F and /UF equal)",
 ]
 
 W_RE = re.compile(r"w\d+$")
@@ -605,7 +605,8 @@ def part_exhaustive(chk, drv, runner):
         # length 4 over a reduced alphabet (keys 1..6 for insert/remove, two probes for find)
         alpha = [a for a in alpha if not (a[0] in "fl" and a[2] not in "25")]
     starts = {
-        3: ["L[]", "L[2=20,4=40]", "L[1=10,3=30,5=50]", "I(L[1=10,2=20,3=30]L[4=40,5=50])", "I(I(L[1=10]L[2=20,3=30])I(L[5=50]))"],
+        3: ["L[]", "L[2=20,4=40]", "L[1=10,3=30,5=50]", "I(L[1=10,2=20,3=30]L[4=40,5=50])", "I(I(L[1=10]L[2=20,3=30])I(L[5=50]))",
+            "I(I(I(L[-3=-30,-2=-20]))I(I(L[0=0]L[2=20,4=40,5=50])))"],
         4: ["L[]", "L[1=10,2=20,3=30,4=40]", "I(L[1=10,2=20,3=30,4=40]L[5=50])"],
         5: ["L[]", "L[1=10,2=20,3=30,4=40,5=50]", "I(L[2=20]L[3=30]L[4=40]L[5=50,6=60])"],
     }
@@ -836,10 +837,11 @@ def part_attach(chk):
     base = os.path.join(wd, "base.pdf")
     open(base, "wb").write(pdfgen.write_classic(pdfgen.page_doc(1))[0])
     dates = ["D:20200101120000Z", "D:20210203040506+05'30'", "D:19991231235959-08'00'", "D:20240229000000Z"]
-    nseq = 6 if quick else 60
-    nsteps = 6 if quick else 10
+    nseq = 16 if quick else 120
+    nsteps = 8 if quick else 12
     njobs = 0
     nontriv = set()
+    kinds_seen = {}
 
     def verify(path, exp, desc, touched):
         """exp: key -> record. returns list of (why, signature)"""
@@ -894,79 +896,145 @@ def part_attach(chk):
                         if st["modificationdate"] == iso_of_pdfdate(listed_c):
                             sig = "C18:attach:json-moddate-is-creationdate"
                         bad.append(("json modificationdate of %r: %r, the stream says %r" % (k, st["modificationdate"], r["mdate"]), sig))
-            if k in touched or len(exp) <= 3:
+            if True:
                 rc, so, se = common.run_qpdf([path, "--show-attachment=" + k])
                 if rc != 0 or so != r["data"]:
                     bad.append(("--show-attachment=%s returned %d bytes (exit %d), stored %d" % (k, len(so), rc, len(r["data"])), "C18:attach:data"))
         return bad
 
+    runner = os.path.join(common.EXTRACT, "model_runner")
+    records = []          # record id -> fields; the specification map holds ids
+
+    def hk(k):
+        return "h" + k.encode("utf-8").hex()
+
+    def amap_text(m):
+        return ",".join("%s=%d" % (hk(k), m[k]) for k in sorted(m, key=lambda x: x.encode("utf-8"))) or "-"
+
+    def new_record(force_empty=False):
+        pth, data = payload_files[0] if force_empty else rng.choice(payload_files)
+        rec = {"data": data, "path": pth, "filename": os.path.basename(pth), "cdate": None, "mdate": None, "mime": "", "desc": ""}
+        opts = []
+        if rng.random() < 0.6:
+            rec["filename"] = rng.choice(["n.txt", "имя.bin", "a b.dat"]); opts.append("--filename=" + rec["filename"])
+        if rng.random() < 0.8:
+            rec["cdate"] = rng.choice(dates); opts.append("--creationdate=" + rec["cdate"])
+        if rng.random() < 0.8:
+            rec["mdate"] = rng.choice(dates); opts.append("--moddate=" + rec["mdate"])
+        if rng.random() < 0.6:
+            rec["mime"] = rng.choice(["text/plain", "application/octet-stream"]); opts.append("--mimetype=" + rec["mime"])
+        if rng.random() < 0.5:
+            rec["desc"] = rng.choice(["d", "описание", "two words"]); opts.append("--description=" + rec["desc"])
+        records.append(rec)
+        return len(records) - 1, opts
+
+    def gen_adds(exp, n):
+        adds = []
+        pool = list(keys)
+        for i in range(n):
+            r = rng.random()
+            if adds and r < 0.35:
+                key = rng.choice(adds)[1]                 # the same key again in this invocation
+            elif exp and r < 0.6:
+                key = rng.choice(sorted(exp))             # a key the document already has
+            else:
+                key = rng.choice(pool)
+            rid, opts = new_record(force_empty=(rng.random() < 0.25))
+            adds.append((rng.random() < 0.4, key, rid, opts))
+        return adds
+
+    def gen_copies(docs, exp, n):
+        copies = []
+        for i in range(n):
+            r = rng.random()
+            if copies and r < 0.4:
+                other = copies[0][1]                       # the same source again
+            else:
+                cand = [d for d in docs if d[1]] or docs
+                other = rng.choice(cand)
+            r2 = rng.random()
+            if r2 < 0.35:
+                pre = ""
+            elif r2 < 0.6 and copies:
+                pre = copies[0][0]                         # the same prefix as the first source
+            else:
+                pre = rng.choice(prefixes)
+            copies.append((pre, other))
+        return copies
+
+    scenarios = ["adds", "adds", "removes", "copy", "copy", "copy2-distinct", "mixed", "newdoc"]
     for sq in range(nseq):
-        # up to three documents, each with its expected dictionary
         docs = [(base, {})]
         for st in range(nsteps):
             njobs += 1
+            kind = scenarios[(sq + st) % len(scenarios)] if st else "newdoc"
             di = rng.randrange(len(docs))
             src, exp = docs[di]
             out = os.path.join(wd, "s%d_%d.pdf" % (sq, st))
-            kind = rng.choice(["add", "add", "add", "replace", "remove", "copy", "addnew-doc"])
-            new = dict(exp)
-            touched = set()
-            expect_fail = False
-            if kind in ("add", "replace", "addnew-doc"):
-                if kind == "addnew-doc":
-                    src, exp, new = base, {}, {}
-                pth, data = rng.choice(payload_files)
-                key = rng.choice(keys)
-                rec = {"data": data, "filename": os.path.basename(pth), "cdate": None, "mdate": None, "mime": "", "desc": ""}
-                args = [src, "--add-attachment", pth, "--key=" + key]
-                if rng.random() < 0.6:
-                    rec["filename"] = rng.choice(["n.txt", "имя.bin", "a b.dat"]); args.append("--filename=" + rec["filename"])
-                if rng.random() < 0.8:
-                    rec["cdate"] = rng.choice(dates); args.append("--creationdate=" + rec["cdate"])
-                if rng.random() < 0.8:
-                    rec["mdate"] = rng.choice(dates); args.append("--moddate=" + rec["mdate"])
-                if rng.random() < 0.6:
-                    rec["mime"] = rng.choice(["text/plain", "application/octet-stream"]); args.append("--mimetype=" + rec["mime"])
-                if rng.random() < 0.5:
-                    rec["desc"] = rng.choice(["d", "описание", "two words"]); args.append("--description=" + rec["desc"])
-                if kind == "replace" or rng.random() < 0.2:
-                    args.append("--replace")
-                elif key in exp:
-                    expect_fail = True
-                args += ["--", "--static-id", out]
-                if not expect_fail:
-                    new[key] = rec
-                    touched.add(key)
-            elif kind == "remove":
-                key = rng.choice(sorted(exp)) if exp and rng.random() < 0.8 else rng.choice(keys)
-                args = [src, "--remove-attachment=" + key, "--static-id", out]
-                if key in exp:
-                    del new[key]
-                else:
-                    expect_fail = True
+            removes, adds, copies = [], [], []
+            if kind == "newdoc":
+                src, exp = base, {}
+                adds = gen_adds(exp, rng.randint(1, 3))
+            elif kind == "adds":
+                adds = gen_adds(exp, rng.randint(1, 3))
+            elif kind == "removes":
+                for _ in range(rng.randint(1, 2)):
+                    removes.append(rng.choice(sorted(exp)) if exp and rng.random() < 0.85 else rng.choice(keys))
+            elif kind == "copy":
+                copies = gen_copies(docs, exp, rng.randint(2, 3))
+            elif kind == "copy2-distinct":
+                cand = [d for d in docs if d[1]] or docs
+                pr = rng.sample(prefixes + ["q:", "r_"], 2)
+                o1 = rng.choice(cand)
+                copies = [(pr[0], o1), (pr[1], o1 if rng.random() < 0.5 else rng.choice(cand))]
             else:
-                oj = rng.randrange(len(docs))
-                other, oexp = docs[oj]
-                pre = rng.choice(prefixes) if rng.random() < 0.6 else ""
-                args = [src, "--copy-attachments-from", other] + (["--prefix=" + pre] if pre else []) + ["--", "--static-id", out]
-                for k, r in oexp.items():
-                    if pre + k in exp:
-                        expect_fail = True
-                    else:
-                        new[pre + k] = r
-                        touched.add(pre + k)
+                if exp and rng.random() < 0.7:
+                    removes.append(rng.choice(sorted(exp)))
+                adds = gen_adds(exp, rng.randint(1, 2))
+                copies = gen_copies(docs, exp, rng.randint(1, 2))
+            args = [src] + ["--remove-attachment=" + k for k in removes]
+            for repl, key, rid, opts in adds:
+                args += ["--add-attachment", records[rid]["path"], "--key=" + key] + opts + (["--replace"] if repl else []) + ["--"]
+            for pre, other in copies:
+                args += ["--copy-attachments-from", other[0]] + (["--prefix=" + pre] if pre else []) + ["--"]
+            args += ["--static-id", out]
+            spec_line = "attjob %s %s %s %s" % (
+                amap_text(exp), ",".join(hk(k) for k in removes) or "-",
+                ",".join("%d:%s=%d" % (1 if repl else 0, hk(key), rid) for repl, key, rid, _ in adds) or "-",
+                ";".join("%s/%s" % (hk(pre), amap_text(other[1])) for pre, other in copies) or "-")
+            verdict = common.run_lines(runner, [spec_line])[0]
             rc, so, se = common.run_qpdf(args)
-            desc = {"argv": ["qpdf"] + [a.replace(wd + "/", "") for a in args], "expected_keys_before": sorted(exp), "step": st}
-            if expect_fail:
-                if rc != 2:
+            desc = {"argv": ["qpdf"] + [a.replace(wd + "/", "") for a in args], "keys_before": sorted(exp), "step": st, "scenario": kind,
+                    "sources": [{"file": o[0].replace(wd + "/", ""), "prefix": pre, "keys": sorted(o[1])} for pre, o in copies],
+                    "specification": verdict}
+            kindsig = "copy" if copies and not adds and not removes else ("add" if adds and not copies and not removes else
+                                                                       ("remove" if removes and not adds and not copies else "mixed"))
+            if verdict.startswith("refused"):
+                bad_keys = [bytes.fromhex(x[1:]).decode("utf-8") for x in verdict[8:].split(",") if x]
+                msg = se.decode("utf-8", "replace")
+                if rc != 2 or os.path.exists(out):
                     chk.violation({"kind": "property-fails-on-implementation", "part": "attachments", "case": desc,
-                                   "why": "the operation must be refused (key collision / missing key), exit %d" % rc})
+                                   "why": "the invocation must be refused (exit 2, no output) because of key(s) %r; exit %d, output written: %s"
+                                          % (bad_keys, rc, os.path.exists(out)), "stderr": msg[-300:]}, signature="C18:attach:%s:not-refused" % kindsig)
+                elif not all(k in msg for k in bad_keys):
+                    chk.violation({"kind": "property-fails-on-implementation", "part": "attachments", "case": desc,
+                                   "why": "the refusal does not name the offending key(s) %r" % bad_keys, "stderr": msg[-300:]},
+                                  signature="C18:attach:%s:message" % kindsig)
+                nontriv.add(("refused",) + tuple(desc["argv"]))
                 continue
+            if not verdict.startswith("ok"):
+                raise common.InfraError("attachment specification did not run: " + verdict[:200])
+            new = {}
+            for kv in verdict[3:].split(","):
+                if kv:
+                    k, _, rid = kv.partition("=")
+                    new[bytes.fromhex(k[1:]).decode("utf-8")] = int(rid)
             if rc != 0:
                 chk.violation({"kind": "property-fails-on-implementation", "part": "attachments", "case": desc,
-                               "why": "valid attachment operation failed: exit %d %s" % (rc, se.decode("latin-1")[-300:])})
+                               "why": "valid attachment operation failed: exit %d %s" % (rc, se.decode("latin-1")[-300:])},
+                              signature="C18:attach:%s:refused-valid" % kindsig)
                 continue
-            bad = verify(out, new, desc, touched)
+            bad = verify(out, {k: records[r] for k, r in new.items()}, desc, set(new))
             seen = set()
             for why, sig in bad:
                 if sig in seen:
@@ -976,12 +1044,16 @@ def part_attach(chk):
                               signature=sig)
             if len(new) >= 2:
                 nontriv.add(tuple(desc["argv"]) + tuple(sorted(new)))
-            if kind == "addnew-doc" and len(docs) < 3:
+            kinds_seen[kind] = kinds_seen.get(kind, 0) + 1
+            if kind == "newdoc" and len(docs) < 3:
                 docs.append((out, new))
+            elif kind == "newdoc":
+                docs[di] = (out, new)
             else:
                 docs[di] = (out, new)
     chk.count("attachments", njobs, nontriv, samples=[])
     chk.cov["parts"]["attachments"]["payload_sizes"] = sizes + [7, 300]
+    chk.cov["parts"]["attachments"]["scenarios_accepted"] = kinds_seen
 
 
 def run(chk):
@@ -996,9 +1068,12 @@ def run(chk):
                        "non-trivial = history during which the number of tree nodes changed (a split or a pruning), distinct by whole case. "
                        "repair: validate(true) on generated trees with swapped / duplicated / shuffled keys or wrong /Limits: result valid, content = sorted "
                        "map of the entries, structure = the model's rebuild by insertion with threshold 32; non-trivial = tree that had to be rebuilt. "
-                       "attachments: sequences of qpdf --add-attachment / --replace / --remove-attachment / --copy-attachments-from [--prefix] over 1..3 files "
-                       "with colliding, prefixed and non-ASCII keys and payloads of 0,1,4095,4096,4097 (thorough: 2^20) bytes, checked after every step "
-                       "through --list-attachments --verbose, --json attachments and --show-attachment against a dictionary; non-trivial = step leaving >= 2 attachments")
+                       "attachments: sequences of qpdf invocations over 1..3 files, each with several --remove-attachment / --add-attachment [--replace] (also the "
+                       "same key twice) / --copy-attachments-from [--prefix] sources (the same source or prefix twice, keys colliding between sources, distinct "
+                       "prefixes), colliding / prefixed / non-ASCII keys, payloads of 0,1,4095,4096,4097 (thorough: 2^20) bytes; expected outcome (refused with "
+                       "the offending keys, or the new key->record map) from the extracted Coq specification att_job; after every accepted step the key list, "
+                       "every payload (--show-attachment), and names/description/dates/mime/checksum through --list-attachments --verbose and --json; "
+                       "non-trivial = step leaving >= 2 attachments")
     part_exhaustive(chk, drv, runner)
     part_random(chk, drv, runner)
     part_large(chk, drv, runner)
